@@ -144,16 +144,23 @@ class C11R(SchedProp):
             'optional/custom outputs, suicide and absolute triggers, runahead P0-P3) driven through the real Scheduler by a '
             'seeded adaptive schedule of main loops, submit results and job messages mixed (p = 0.16-0.25 per step) with '
             'commands, with 1-2 stop + restart cycles per run at random points in all three stop modes. Kinds setR / setanyR '
-            '(3/4 of the runs; model correspondence): `cylc set` of outputs / prerequisites on pooled and inactive instances '
+            '(half of the runs; model correspondence): `cylc set` of outputs / prerequisites on pooled and inactive instances '
             'with --flow default / new / none / N and --wait (40%), holds, hold point, pause (setanyR: failures, submit '
             'failures, missing outputs, duplicate / stale / out-of-order messages). Kind trigw (1/4; judged on the real '
             'trace only): `cylc trigger` of groups with --flow=N / new / none and --wait (50%), holds, pause. 6 hand-written '
             'histories + the witnesses of the findings (flow wait over one and two restarts, forced outputs on failed / '
-            'running tasks over a restart, merges between restarts). Judged: retention after every operation, and for '
+            'running tasks over a restart, merges between restarts) + 7 histories of the two families below. Kind setF (1/4 of '
+            'the runs, workflows without retry delays): instances that already ran and left the pool are re-run in LATER flows '
+            '(`cylc set --pre=all --flow=new / N`, 70% of the commands), so that one instance has task_states / task_outputs '
+            'rows under several flow numbers, and the scheduler is stopped while such a re-run is running / failed / '
+            'succeeded (policy p_stop_rerun). In every set kind 35% of the custom output messages of a job arrive AFTER its '
+            'final status message (out-of-order delivery). Judged: retention after every operation, every output message '
+            'received from the current job of a pooled task is recorded (any arrival order), and for '
             'every restart the observation before the stop against the one after start-up (pool, status, submit number, '
             'flows, flow wait, manual-submit, held, outputs, prerequisites, hold / stop state); non-trivial = distinct class '
             '(kind, number of restarts, what the pool held at a restart: flow-wait / several flows / merged / preparing / '
-            'finished-incomplete / manually triggered tasks, forced outputs in the run) per distinct case')
+            'finished-incomplete / manually triggered tasks / tasks with rows under other - lower sorting - flow numbers, forced '
+            'outputs, late custom outputs in the run) per distinct case')
     kinds = ('setR', 'setanyR', 'setF', 'trigw')
     n_quick = 48
     n_thorough = 640
